@@ -545,6 +545,8 @@ def classify_callee(F, e: Event) -> Tuple[str, str]:
         return ('unknown', show(f))
     if f[0] == 'ref':
         if f[1] == 'builtin':
+            if f[2] == 'type' and len(e.args or ()) == 1 and not (e.kwargs or ()):
+                return ('pure', 'type(x): the class of a value (no class is created; what happens to the result is a matter of R3)')
             if f[2] in TB.FORBIDDEN_BUILTINS:
                 return ('forbidden', 'builtin %s' % f[2])
             return ('pure', 'builtin %s' % f[2])
@@ -717,6 +719,8 @@ def _r4(chk: Check, R4: str) -> None:
                 rec_ = F.__dict__.get('_setattr_nodes', {}).get(id(n))
                 if rec_ and rec_[0] is n and rec_[1] is True:
                     continue            # constant attribute names on every path: plain attribute stores
+            if isinstance(n, ast.Call) and isinstance(n.func, ast.Name) and n.func.id == 'type' and len(n.args) == 1 and not n.keywords:
+                continue            # one-argument type(x): inspection only
             if isinstance(n, ast.Call) and isinstance(n.func, ast.Name) and n.func.id in TB.FORBIDDEN_BUILTINS \
                     and F.resolve_name(fi.module, n.func.id)[0] == 'builtin' and n.func.id != 'super':
                 forbidden.setdefault('`%s`' % norm(n), (n.lineno, 'builtin %s' % n.func.id))
